@@ -337,20 +337,36 @@ def r_prechecks(ck: Checker) -> None:
     what = "construction checks for duplicate children before anything else"
     ok = norm(body[0]) == "self._check_unique_children()"
     (ck.holds if ok else ck.violation)("R-LEG-PRECHECK", pi, body[0], what, **({} if ok else {"construct": f"__post_init__ starts with {norm(body[0])[:50]}"}))
-    rp = ck.repo.func(LNODE, f"{CLS}.replace")
-    # the forbidden-key check precedes the first effect
-    first_eff = min([n.lineno for n in walk_body(rp.node.body) if isinstance(n, ast.Call) and (dotted(n.func) or "").split(".")[-1] in ("_clear_parent", "detach_self", "detach")] or [10**9])
-    raises = [n for n in walk_body(rp.node.body) if isinstance(n, ast.Raise) and n.exc is not None and "ASTNodeReplaceError" in norm(n.exc)]
-    what = "replace rejects forbidden keys before its first effect"
-    ok = len(raises) == 1 and raises[0].lineno < first_eff
-    (ck.holds if ok else ck.violation)("R-LEG-PRECHECK", rp, rp.node, what, **({} if ok else {"construct": "replace: forbidden-key check does not precede the first effect"}))
-    rw = ck.repo.func(LNODE, f"{CLS}.replace_with")
-    first_eff = min([n.lineno for n in walk_body(rw.node.body) if isinstance(n, ast.Call) and (dotted(n.func) or "").split(".")[-1] in ("_clear_parent", "detach_self", "detach")
-                     or (isinstance(n, ast.Call) and dotted(n.func) in ("object.__setattr__", f"{REG}.pop"))] or [10**9])
-    pre = [n for n in walk_body(rw.node.body) if isinstance(n, ast.Raise) and n.exc is not None and n.lineno < first_eff]
-    what = "replace_with performs its parent / type / optionality checks before its first effect"
-    ok = len(pre) >= 4
-    (ck.holds if ok else ck.violation)("R-LEG-PRECHECK", rw, rw.node, what, **({"pre_checks": len(pre)} if ok else {"construct": f"replace_with: only {len(pre)} rejections precede the first effect (4 expected)"}))
+    # rejections (raise statements of the normal flow, i.e. outside exception handlers) happen before anything was changed
+    from ..dtree import decision_tree
+
+    def effect(st: ast.AST) -> str | None:
+        for n in ast.walk(st):
+            if isinstance(n, ast.Call):
+                last = (dotted(n.func) or "").split(".")[-1]
+                if last in ("_clear_parent", "detach_self", "detach", "_attach", "attach", "_attach_inner", "_set_parent", "_replace_child"):
+                    return last
+                if dotted(n.func) in ("object.__setattr__", "setattr", f"{REG}.pop", f"{REG}.__setitem__", f"{REG}.__delitem__"):
+                    return dotted(n.func)
+            if isinstance(n, ast.Subscript) and isinstance(n.ctx, (ast.Store, ast.Del)) and dotted(n.value) == REG:
+                return f"{REG}[...]"
+        return None
+
+    for q, label in ((f"{CLS}.replace", "replace rejects forbidden keys before its first effect"),
+                     (f"{CLS}.replace_with", "replace_with performs its parent / type / optionality checks before its first effect")):
+        fq = ck.repo.func(LNODE, q)
+        body_q = [st for st in fq.node.body if not (isinstance(st, ast.Expr) and isinstance(st.value, ast.Constant))]
+        leaves = decision_tree(body_q, try_as_body=True, max_atoms=18)
+        rejections = [lf for lf in leaves if lf.outcome == "raise"]
+        late = [(lf, next(e_ for e_ in (effect(st) for st in lf.stmts) if e_)) for lf in rejections if any(effect(st) for st in lf.stmts)]
+        if late:
+            lf, eff = late[0]
+            ck.violation("R-LEG-PRECHECK", fq, fq.node, label, evaluations=len(leaves),
+                         construct=f"{q.split('.')[-1]}: the rejection `raise {norm(lf.value)[:60] if lf.value is not None else ''}` is reached after {eff} has already run")
+        elif not rejections:
+            raise Unsupported(f"{q}: no rejection found on the normal flow", fq.node)
+        else:
+            ck.holds("R-LEG-PRECHECK", fq, fq.node, label, evaluations=len(leaves), pre_checks=len(rejections))
 
 
 def r_clone(ck: Checker) -> None:
